@@ -260,7 +260,10 @@ def run_driver(binary, rendered, nproc=NPROC, case_timeout=20.0, stack_mb=8, max
 def run_node(specs, nproc=NPROC, timeout=1800):
     node = find_node()
     results = {}
-    shards = [specs[i::nproc] for i in range(nproc)]
+    # module contexts are not collected quickly by V8: no node process gets more than `per` modules
+    per = 4000
+    nshards = max(nproc, (len(specs) + per - 1) // per)
+    shards = [specs[i::nshards] for i in range(nshards)]
     errs = []
 
     def work(shard):
@@ -277,11 +280,9 @@ def run_node(specs, nproc=NPROC, timeout=1800):
                     results[rec["case"]] = rec
         except Exception as e:
             errs.append(str(e))
-    ts = [threading.Thread(target=work, args=(s,)) for s in shards if s]
-    for t in ts:
-        t.start()
-    for t in ts:
-        t.join()
+    import concurrent.futures
+    with concurrent.futures.ThreadPoolExecutor(max_workers=nproc) as ex:
+        list(ex.map(work, [s for s in shards if s]))
     if errs:
         raise ToolError("runtime observer failed: " + errs[0])
     return results
